@@ -384,6 +384,27 @@ impl Format {
             Some(days) => {
                 // Check the year first: from_day_of_year panics if the start of the year cannot be represented.
                 Epoch::maybe_from_gregorian(decomposed[0], 1, 1, 0, 0, 0, 0, ts)?;
+                // The day of year counts from 1 (1 January) and must fall in that year; the time of day is validated
+                // like that of a calendar date (here on 1 January, which is never a leap second day).
+                let days_in_year =
+                    if crate::epoch::is_gregorian_valid(decomposed[0], 2, 29, 0, 0, 0, 0) {
+                        366.0
+                    } else {
+                        365.0
+                    };
+                if !(1.0..days_in_year + 1.0).contains(&days)
+                    || !crate::epoch::is_gregorian_valid(
+                        decomposed[0],
+                        1,
+                        1,
+                        decomposed[3].try_into().unwrap(),
+                        decomposed[4].try_into().unwrap(),
+                        decomposed[5].try_into().unwrap(),
+                        decomposed[6].try_into().unwrap(),
+                    )
+                {
+                    return Err(HifitimeError::InvalidGregorianDate);
+                }
                 // Parse the elapsed time in the given day
                 let elapsed = (decomposed[3] as i64) * Unit::Hour
                     + (decomposed[4] as i64) * Unit::Minute
